@@ -327,7 +327,16 @@ func uciPerftCase(c Case) error {
 	os.Stdout = old
 	devnull.Close()
 	lines := strings.Split(strings.TrimSpace(out.String()), "\n")
-	got, err := strconv.Atoi(strings.TrimSpace(lines[len(lines)-1]))
+	// the total is the last number of the last line that is not an info line ("123", "Nodes searched: 123", ...)
+	got, err := 0, fmt.Errorf("no total")
+	for i := len(lines) - 1; i >= 0 && err != nil; i-- {
+		fs := strings.Fields(lines[i])
+		if len(fs) == 0 || fs[0] == "info" {
+			continue
+		}
+		got, err = strconv.Atoi(fs[len(fs)-1])
+		break
+	}
 	if err != nil {
 		return fmt.Errorf("uci perft output not understood: %q", out.String())
 	}
